@@ -220,9 +220,9 @@ impl Handler for DynHandler {
                     }
                 }
                 Act::Take => {
+                    // the body keeps running after `take`: the handler owns the event and may still send or panic
                     if params[0].is_mut_receiver() {
                         params[0].take();
-                        break;
                     }
                 }
                 Act::Panic => panic!("user"),
@@ -836,8 +836,30 @@ fn main() {
             let (_, c, q) = e.world.as_ref().unwrap().verif_pending();
             lines.push(format!("pend res={c} queue={q}"));
             if snap {
-                for l in e.world.as_ref().unwrap().verif_snapshot().lines() {
+                let w = e.world.as_ref().unwrap();
+                for l in w.verif_snapshot().lines() {
                     lines.push(format!("snap {l}"));
+                }
+                // handler metadata through the public API, for the listener-table audit
+                for h in w.handlers().iter() {
+                    let recv = match h.received_event() {
+                        evenio::event::EventId::Global(g) => format!("g{}", g.index().0),
+                        evenio::event::EventId::Targeted(t) => format!("t{}", t.index().0),
+                    };
+                    let prio = match h.priority() {
+                        HandlerPriority::High => "h",
+                        HandlerPriority::Medium => "m",
+                        HandlerPriority::Low => "l",
+                    };
+                    lines.push(format!(
+                        "hinfo {}v{} recv={} prio={} filter={:?} archfilter={:?}",
+                        h.id().index().0,
+                        h.id().generation(),
+                        recv,
+                        prio,
+                        h.targeted_event_component_access(),
+                        h.archetype_filter()
+                    ));
                 }
             }
         }
